@@ -5,6 +5,7 @@ model; the oracle is computed from the plan, never from curtsies.  DESIGN.md 4.
 """
 
 import random
+import signal as _signal
 
 from sim import seams, gen, plan as planmod
 from sim.world import World, environment_artefact, HarnessError, StepCap, Quiescent
@@ -277,7 +278,11 @@ def run_plan(p, keep_log=False):
     except (StepCap, Quiescent) as e:
         res["error"] = "unexpected %s in a single-threaded C02 run" % type(e).__name__
     finally:
-        seams.unbind()
+        try:
+            import gc
+            gc.collect()          # (finalizers of this run's objects run in this run's world, see sim/setup.py)
+        finally:
+            seams.unbind()
     if term.unknown and not res["error"]:
         res["error"] = "UNMODELLED terminal sequence(s): %r" % term.unknown[:3]
     res["digest"] = world.log.digest()
@@ -312,6 +317,8 @@ def _execute(p, world, term, out, res):
             res["nsteps"] += 1
             if st["op"] == "resize":
                 term.resize(st["h"], st["w"], random.Random(st["junk"]), tuple(st["cursor"]))
+                seams._K.sig.post(_signal.SIGWINCH)      # a tty tells its foreground process about every size change
+                seams._K.sig.deliver_pending(False)      # (the handler, if any, runs before the next render begins)
                 world.log.add("resize", st["h"], st["w"], st["junk"])
                 world.fault("resize")
                 after_resize = True
@@ -333,6 +340,8 @@ def _execute(p, world, term, out, res):
                     if not fired[0] and n - base == mid["at_write"]:
                         fired[0] = True
                         term.resize(mid["h"], mid["w"], random.Random(mid["junk"]), tuple(mid["cursor"]))
+                        seams._K.sig.post(_signal.SIGWINCH)
+                        seams._K.sig.deliver_pending(False)
                         world.log.add("resize_mid", mid["h"], mid["w"], mid["junk"])
                         world.fault("resize_mid_render")
                 out.on_write = on_write
@@ -379,6 +388,8 @@ def _execute(p, world, term, out, res):
             if mid and not fired[0]:
                 # the render finished before the planned write ordinal: the resize lands right after it
                 term.resize(mid["h"], mid["w"], random.Random(mid["junk"]), tuple(mid["cursor"]))
+                seams._K.sig.post(_signal.SIGWINCH)
+                seams._K.sig.deliver_pending(False)
                 world.log.add("resize_late", mid["h"], mid["w"], mid["junk"])
                 world.fault("resize")
                 after_resize = True
